@@ -598,8 +598,10 @@ func RunOne(cfg *Config, prefix, prefixN []int, body func(s *Sched)) ExecResult 
 	}
 	active = nil
 	t2 := time.Now()
-	for _, h := range s.endHooks {
-		h(s.outcome)
+	// like defers: last registered first (a harness registers the removal of its scratch
+	// directory before it opens the databases whose closing is registered later)
+	for i := len(s.endHooks) - 1; i >= 0; i-- {
+		s.endHooks[i](s.outcome)
 	}
 	StatRun += t1.Sub(t0)
 	StatTear += t2.Sub(t1)
